@@ -18,6 +18,7 @@ TraceInit ==
        /\ EI = Conv(o.EI) /\ OI = Conv(o.OI) /\ EO = Conv(o.EO) /\ OO = Conv(o.OO)
        /\ hist = o.hist /\ batch = o.batch /\ st = o.st /\ forced = o.forced
   /\ k = 1 /\ stage = "early" /\ queue = <<>> /\ log = <<>> /\ wire = <<>> /\ closed = FALSE /\ ignored = FALSE /\ nw = 0 /\ fdone = FALSE
+  /\ reacted = {} /\ comp = FALSE
 TraceSpec == TraceInit /\ [][Next /\ UNCHANGED tid]_<<vars, tid>>
-LogMatches == Done => (log = Obs[tid].log /\ wire = Obs[tid].wire)
+LogMatches == Done => (log = Obs[tid].log /\ wire = Obs[tid].wire /\ comp = Obs[tid].comp)
 =============================================================================
